@@ -52,6 +52,7 @@ def malformed_responses(tok):
     b = resp_body(tok)
     n = len(b)
     H = b"HTTP/1.1 200 OK\r\n"
+    CH = b"Transfer-Encoding: chunked\r\n\r\n"
     return {
         "status-line-not-http": b"HTTX/1.1 200 OK\r\nContent-Length: %d\r\n\r\n" % n + b,
         "status-line-no-space": b"HTTP/1.1\r\nContent-Length: %d\r\n\r\n" % n + b,
@@ -73,13 +74,65 @@ def malformed_responses(tok):
         "chunk-size-overflow": H + b"Transfer-Encoding: chunked\r\n\r\nfffffffffffffffff\r\n" + b + b"\r\n0\r\n\r\n",
         "chunk-size-trailing-ws": H + b"Transfer-Encoding: chunked\r\n\r\n%x \r\n" % n + b + b"\r\n0\r\n\r\n",
         "chunk-size-junk": H + b"Transfer-Encoding: chunked\r\n\r\n%xq\r\n" % n + b + b"\r\n0\r\n\r\n",
+        # --- added after seeded change C17-c was missed: one class per remaining grammar position
+        "status-line-no-version": b"HTTP/ 200 OK\r\nContent-Length: %d\r\n\r\n" % n + b,
+        "cl-empty": H + b"Content-Length: \r\n\r\n" + b,
+        "cl-plus-sign": H + b"Content-Length: +%d\r\n\r\n" % n + b,
+        "chunk-size-empty": H + CH + b"\r\n" + b + b"\r\n0\r\n\r\n",
+        "chunk-size-negative": H + CH + b"-%x\r\n" % n + b + b"\r\n0\r\n\r\n",
+        "chunk-size-0x-prefix": H + CH + b"0x%x\r\n" % n + b + b"\r\n0\r\n\r\n",
+        "chunk-size-bare-cr": H + CH + b"%x\r" % n + b + b"\r\n0\r\n\r\n",
+        "chunk-ext-lone-lf": H + CH + b"%x;ext=1\n" % n + b + b"\r\n0\r\n\r\n",
+        "chunk-ext-missing-semicolon": H + CH + b"%x ext=1\r\n" % n + b + b"\r\n0\r\n\r\n",
+        "chunk-data-lone-lf": H + CH + b"%x\r\n" % n + b + b"\n0\r\n\r\n",
+        "chunk-data-bare-cr": H + CH + b"%x\r\n" % n + b + b"\r0\r\n\r\n",
+        "last-chunk-lone-lf": H + CH + b"%x\r\n" % n + b + b"\r\n0\n\r\n",
+        "last-chunk-junk": H + CH + b"%x\r\n" % n + b + b"\r\n0 x\r\n\r\n",
+        "trailer-field-lone-lf": H + CH + b"%x\r\n" % n + b + b"\r\n0\r\nX-T: v\n\r\n",
+        "trailer-first-of-two-lone-lf": H + CH + b"%x\r\n" % n + b + b"\r\n0\r\nX-T: v\nX-U: w\r\n\r\n",
+        "trailer-final-lone-lf": H + CH + b"%x\r\n" % n + b + b"\r\n0\r\n\n",
+        "trailer-final-lone-lf-after-field": H + CH + b"%x\r\n" % n + b + b"\r\n0\r\nX-T: v\r\n\n",
     }
+
+
+def ambiguous_responses(tok):
+    """Complete messages with a bare CR where RFC 9112 §2.2 lets a recipient EITHER reject the element OR
+    treat the CR as SP. Accepting and rejecting are both fine; what is never fine is transmitting the request again
+    after having read all of it (reject => deterministic error; accept => success)."""
+    b = resp_body(tok)
+    n = len(b)
+    H = b"HTTP/1.1 200 OK\r\n"
+    CH = b"Transfer-Encoding: chunked\r\n\r\n"
+    return {
+        "trailer-field-bare-cr": H + CH + b"%x\r\n" % n + b + b"\r\n0\r\nX-T: v\rX-U: w\r\n\r\n",
+        "trailer-line-only-cr": H + CH + b"%x\r\n" % n + b + b"\r\n0\r\n\r\r\n\r\n",
+        "header-value-bare-cr": H + b"X-A: a\rb\r\nContent-Length: %d\r\n\r\n" % n + b,
+        "chunk-ext-bare-cr": H + CH + b"%x;e=a\rb\r\n" % n + b + b"\r\n0\r\n\r\n",
+    }
+
+
+AMBIGUOUS_CLASSES = sorted(ambiguous_responses("T").keys())
+# grammar position -> classes located there (documentation + evidence; every position must be non-empty)
+GRAMMAR_POSITIONS = {
+    "status-line": ["status-line-not-http", "status-line-no-space", "status-line-no-version", "version-2.0",
+                    "status-code-nondigit", "status-code-4digits"],
+    "header-line": ["obs-fold", "header-no-colon"],
+    "length-headers": ["cl-duplicate-conflict", "cl-not-a-number", "cl-negative", "cl-list-conflict", "cl-overflow", "cl-empty",
+                       "cl-plus-sign", "cl-and-te", "cl-exceeds-cap"],
+    "chunk-size-line": ["chunk-size-not-hex", "chunk-size-lone-lf", "chunk-size-overflow", "chunk-size-trailing-ws",
+                        "chunk-size-junk", "chunk-size-empty", "chunk-size-negative", "chunk-size-0x-prefix", "chunk-size-bare-cr"],
+    "chunk-ext": ["chunk-ext-lone-lf", "chunk-ext-missing-semicolon"],
+    "chunk-data-terminator": ["chunk-data-no-crlf", "chunk-data-lone-lf", "chunk-data-bare-cr"],
+    "last-chunk": ["last-chunk-lone-lf", "last-chunk-junk"],
+    "trailer-field-line": ["trailer-field-lone-lf", "trailer-first-of-two-lone-lf"],
+    "final-crlf": ["trailer-final-lone-lf", "trailer-final-lone-lf-after-field"],
+}
 
 
 MALFORMED_CLASSES = sorted(malformed_responses("T").keys())
 # classes whose defect sits in the body framing: a HEAD response has no body, so for HEAD these
 # bytes are a complete header block (+ surplus), not a framing error
-MALFORMED_BODY_ONLY = {c for c in MALFORMED_CLASSES if c.startswith("chunk-") or c in
+MALFORMED_BODY_ONLY = {c for c in MALFORMED_CLASSES if c.startswith(("chunk-", "last-chunk-", "trailer-")) or c in
                        ("cl-not-a-number", "cl-negative", "cl-list-conflict", "cl-overflow", "cl-and-te", "cl-exceeds-cap")}
 
 CLOSE_SIGNALS = {
@@ -121,6 +174,16 @@ class Fault:
     def silent(self):
         return self.kind.startswith("silence")
 
+    def rt(self, rng):
+        """request timeout the case needs for this fault"""
+        if self.silent():
+            return rng.choice([100, 150, 200])
+        if self.kind == "malformed-hold-timeout":
+            return 300
+        if self.kind == "ambiguous-hold":
+            return 1000
+        return LONG_RT
+
     def steps(self, tok, method):
         k, p = self.kind, self.pos
         ok = ok_response(tok, method)
@@ -153,6 +216,14 @@ class Fault:
             return "readfull;send:%s;taint:silence;observe" % hx(ok[:p])
         if k == "malformed":
             return "readfull;send:%s;taint:malformed:%s;observe" % (hx(malformed_responses(tok)[self.cls]), self.cls)
+        if k == "malformed-close":                     # same bytes, then the server closes (no more bytes can ever come)
+            return "readfull;send:%s;taint:malformed:%s;fin;observe" % (hx(malformed_responses(tok)[self.cls]), self.cls)
+        if k == "malformed-hold-timeout":              # same bytes, socket held open, short request timeout on the case
+            return "readfull;send:%s;taint:malformed:%s;observe" % (hx(malformed_responses(tok)[self.cls]), self.cls)
+        if k == "ambiguous-close":
+            return "readfull;send:%s;taint:ambiguous:%s;done;fin;observe" % (hx(ambiguous_responses(tok)[self.cls]), self.cls)
+        if k == "ambiguous-hold":
+            return "readfull;send:%s;taint:ambiguous:%s;done" % (hx(ambiguous_responses(tok)[self.cls]), self.cls)
         if k == "over-cap-body":                       # needs cap=4096 on the case
             big = b"HTTP/1.1 200 OK\r\nContent-Type: text/plain\r\n\r\n" + b"y" * 9000
             return "readfull;send:%s;taint:malformed:over-cap-body;observe" % hx(big)
@@ -301,6 +372,14 @@ def fault_positions(geo, method, exhaustive_req=False, exhaustive_resp=False):
             out.append(Fault("fin-after-chunked-response-bytes", p))
     for c in MALFORMED_CLASSES:
         out.append(Fault("malformed", cls=c))
+        out.append(Fault("malformed-close", cls=c))
+    for pos, classes in sorted(GRAMMAR_POSITIONS.items()):          # one held-open + short-timeout case per grammar position
+        out.append(Fault("malformed-hold-timeout", cls=classes[-1]))
+    for c in ("trailer-field-lone-lf", "trailer-final-lone-lf"):
+        out.append(Fault("malformed-hold-timeout", cls=c))
+    for c in AMBIGUOUS_CLASSES:
+        out.append(Fault("ambiguous-close", cls=c))
+        out.append(Fault("ambiguous-hold", cls=c))
     for c in CLOSE_SIGNALS:
         out.append(Fault("close-signal", cls=c))
     out.append(Fault("close-signal-fin", cls="resp-connection-close"))
@@ -325,8 +404,7 @@ STOPS = [1, 2, 3, None]
 
 
 def single_case(rng, method, budget, fault, stop, refuse=0, blackhole=0, rt=None):
-    silent = fault.silent() or blackhole
-    rt = rt or (rng.choice([100, 150, 200]) if silent else LONG_RT)
+    rt = rt or (rng.choice([100, 150, 200]) if blackhole and not fault.silent() and fault.rt(rng) == LONG_RT else fault.rt(rng))
     cap = 4096 if fault.kind == "over-cap-body" else 0
     r = Req(method, budget, seq(fault, stop), stop=stop, refuse=refuse, blackhole=blackhole, gap=0)
     # a second, clean request after a successful first one shows whether the connection is reused
